@@ -18,8 +18,10 @@ Expiries == {0, 2}
 \* may deliver are entries logged by a peer at odd instants: no two different
 \* entries ever share key and timestamp (the property's quantifier).
 RemoteTs == {t \in 0 .. MaxTime : t % 2 = 1}
+\* d = "big": receiver data large enough to make the gossip message oversized
 PayloadOf(ts) == IF ts % 4 = 1 THEN [f |-> {3},   r |-> {},  d |-> "str"]
-                               ELSE [f |-> {2,3}, r |-> {3}, d |-> "int"]
+                 ELSE IF ts % 8 = 3 THEN [f |-> {2,3}, r |-> {3}, d |-> "big"]
+                 ELSE [f |-> {2,3}, r |-> {3}, d |-> "int"]
 Pool == { [k |-> k, ts |-> ts, exp |-> ts + RemoteRetention,
            f |-> PayloadOf(ts).f, r |-> PayloadOf(ts).r, d |-> PayloadOf(ts).d]
           : k \in Keys, ts \in RemoteTs }
